@@ -110,6 +110,8 @@ class Tape:
                 v = lo
             elif m == "last":
                 v = hi - 1
+            elif m.startswith("idx:"):      # scripted generator: an exact (clamped) index
+                v = lo + min(int(m[4:]), hi - lo - 1)
         if self.record is not None:
             self.record.append(("r", v, lo, hi))
         return v
